@@ -15,9 +15,8 @@ From NB Require Import Diff.DiffFormat.
 From NB Require Import Diff.Patch.
 From NB Require Import Diff.Codec.
 From NB Require Import Sys.RenderTypes.
-From NB Require Import Gen.RenderFilter..
-From NB Require Import Import.
-From NB Require Import ListNotations.
+From NB Require Import Gen.RenderFilter.
+Import ListNotations.
 
 (* ---------- configuration: PrettyPrintConfig + which() results ---------- *)
 Record cfg := {
